@@ -65,6 +65,11 @@ pub enum IntegDecl {
     MultiStrongerOfOther,
     /// an integrity value without any hash: nothing can satisfy it
     NoHashes,
+    /// three correct hashes (SHA-1, SHA-256, SHA-512 and the writer's algorithm if it is none of
+    /// these), weakest first
+    MultiThree,
+    /// three hashes of the writer's algorithm: wrong, RIGHT, wrong (any match counts)
+    MultiRightInTheMiddle,
 }
 
 /// Something another process does to the cache between a writer's last chunk and its commit.
